@@ -327,8 +327,13 @@ class RetryExecutor(CanCustomizeBind, Executor):
         refused = None
 
         # Pop job since we'll replace it.
-        # We need to hold the lock for the entire duration so that other
-        # threads won't see _jobs between our removal and re-add of the job
+        # The future's lock is held for the entire duration, so that nobody
+        # can cancel the future between our check and the submit. Our own
+        # lock is NOT held while calling the delegate: its submit() may block
+        # (a throttle in blocking mode) or run the callable inline, and
+        # submit() / cancel() of other futures must not wait for that.
+        # A cancel() of this future finding no job in the meantime is
+        # refused, see _cancel.
         with job.future._me_lock:
             with self._lock:
                 self._pop_job(job)
@@ -344,17 +349,18 @@ class RetryExecutor(CanCustomizeBind, Executor):
                 if job.attempt != 0:
                     metrics.RETRY_TOTAL.labels(executor=self._name).inc()
 
-                try:
-                    delegate_future = self._delegate.submit(
-                        job.fn, *job.args, **job.kwargs
-                    )
-                except Exception as ex:  # pylint: disable=broad-except
-                    # The delegate refused the callable (for instance, it has
-                    # been shut down). That is the outcome of this future;
-                    # it must not take down the thread serving all the others.
-                    self._log.debug("Delegate refused %s", job, exc_info=True)
-                    refused = ex
-                else:
+            try:
+                delegate_future = self._delegate.submit(
+                    job.fn, *job.args, **job.kwargs
+                )
+            except Exception as ex:  # pylint: disable=broad-except
+                # The delegate refused the callable (for instance, it has
+                # been shut down). That is the outcome of this future;
+                # it must not take down the thread serving all the others.
+                self._log.debug("Delegate refused %s", job, exc_info=True)
+                refused = ex
+            else:
+                with self._lock:
                     job.future.delegate_future = delegate_future
 
                     new_job = RetryJob(
